@@ -444,6 +444,21 @@ class Ctx:
         "?\tctgF:1-40\tscfB\tPLUS\n"
     )
 
+    ODD_AGP = (
+        "# odd spellings of the gap type column\n"
+        "scfA\t1\t500\t1\tW\tctgA\t1\t500\t+\n"
+        "scfA\t501\t700\t2\tU\t200\tScaffold\tyes\tproximity_ligation\n"
+        "scfA\t701\t1000\t3\tW\tctgB\t1\t300\t-\n"
+        "scfA\t1001\t1100\t4\tN\t100\tSCAFFOLD\tyes\tpaired-ends\n"
+        "scfA\t1101\t1180\t5\tW\tctgC\t11\t90\t?\n"
+        "scfA\t1181\t1190\t6\tU\t10\tContig\tno\tna\n"
+        "scfA\t1191\t1230\t7\tW\tctgD\t1\t40\t+\n"
+        "scfB\t1\t5\t1\tU\t5\tScaffold\tyes\tproximity_ligation\n"
+        "scfB\t6\t45\t2\tW\tctgE\t1\t40\t+\n"
+        "scfB\t46\t46\t3\tU\t1\tScaffold\tyes\tproximity_ligation\n"
+        "scfB\t47\t86\t4\tW\tctgF\t1\t40\t+\n"
+    )
+
     def run_odd_asmformat(self, fmt):
         """asm-format on a TPF that spells its gap types differently from what
         the tools write (SCAFFOLD, CONTIG, REPEAT): whatever parsing it teaches
@@ -453,9 +468,14 @@ class Ctx:
             os.makedirs(d)
             Path(os.path.join(d, "odd.tpf")).write_text(self.ODD_TPF)
             self.world.stamp_path(os.path.join(d, "odd.tpf"))
+        if not os.path.exists(os.path.join(d, "odd.agp")):
+            Path(os.path.join(d, "odd.agp")).write_text(self.ODD_AGP)
+            self.world.stamp_path(os.path.join(d, "odd.agp"))
         outd = self.new_out()
         r, trace = self.run_inproc(self.af.cli, [os.path.join(d, "odd.tpf"), "-o", os.path.join(outd, f"odd.{fmt}")], "asm-format", end=False)
-        oc = Outcome(r.code, self.collect(outd, d), r.stderr)
+        # ... and an AGP whose gap-type column is capitalised differently
+        r2, _t2 = self.run_inproc(self.af.cli, [os.path.join(d, "odd.agp"), "-o", os.path.join(outd, f"odd2.{fmt}")], "asm-format", end=False)
+        oc = Outcome(r.code or r2.code, self.collect(outd, d), r.stderr + r2.stderr)
         oc.outd, oc.ind = outd, d
         return oc
 
